@@ -34,7 +34,9 @@ pub struct NodeSpec {
     pub gt: bool,
     pub dt: u64,
     pub tamper: bool,
-    /// 0 none, 1 spend an output available on this branch, 2 spend an output that exists only on another branch
+    /// 0 none, 1 spend an output available on this branch, 2 spend an output that exists only on another branch,
+    /// 3 spend an output CREATED BY THE PARENT block (a dependency chain along the branch; falls back to 1),
+    /// 4 spend an output that an ancestor on this branch has already spent (falls back to none)
     pub tx: u8,
     pub creator: u64,
 }
@@ -47,6 +49,9 @@ pub async fn build_tree(f: &mut Factory, specs: &[NodeSpec]) -> Option<Tree> {
     let g_out = outputs_of(&genesis, &owner);
     // avail[i] = outputs spendable after node i on its branch
     let mut avail: Vec<Vec<Utxo>> = vec![];
+    // created[i] = outputs created by node i itself; spent[i] = outputs spent on the branch up to and including node i
+    let mut created: Vec<Vec<Utxo>> = vec![];
+    let mut spent: Vec<Vec<Utxo>> = vec![];
     let mut nodes: Vec<TNode> = vec![];
     let mut foreign_pool: Vec<Utxo> = vec![]; // outputs created on some branch (used for cross-branch spends)
     for (i, s) in specs.iter().enumerate() {
@@ -55,10 +60,30 @@ pub async fn build_tree(f: &mut Factory, specs: &[NodeSpec]) -> Option<Tree> {
             Some(p) => (nodes[p].block.clone(), avail[p].clone(), nodes[p].depth + 1),
         };
         let mut my_avail = pavail.clone();
+        let mut my_spent: Vec<Utxo> = match s.parent {
+            None => vec![],
+            Some(p) => spent[p].clone(),
+        };
         let mut txs = vec![];
-        if s.tx == 1 && !my_avail.is_empty() {
-            let k = f.rng.below(my_avail.len() as u64) as usize;
+        // mode 3: prefer an output the parent block created
+        let from_parent: Option<usize> = if s.tx == 3 {
+            s.parent.and_then(|p| my_avail.iter().position(|u| created[p].iter().any(|c| c.slip.utxoset_key == u.slip.utxoset_key)))
+        } else {
+            None
+        };
+        if s.tx == 4 {
+            if !my_spent.is_empty() {
+                let u = my_spent[f.rng.below(my_spent.len() as u64) as usize].clone();
+                let amt = u.slip.amount;
+                txs.push(f.make_tx(&TxSpec { inputs: vec![u], outputs: vec![(1, amt)], data: vec![i as u8, 4] }));
+            }
+        } else if (s.tx == 1 || s.tx == 3) && !my_avail.is_empty() {
+            let k = match from_parent {
+                Some(k) => k,
+                None => f.rng.below(my_avail.len() as u64) as usize,
+            };
             let u = my_avail.remove(k);
+            my_spent.push(u.clone());
             let to = f.rng.range(1, NKEYS - 1);
             let fee = if f.rng.coin(1, 3) { f.rng.range(1, 10) } else { 0 };
             let amt = u.slip.amount - fee.min(u.slip.amount - 1);
@@ -90,7 +115,9 @@ pub async fn build_tree(f: &mut Factory, specs: &[NodeSpec]) -> Option<Tree> {
         f.remember(&b);
         let outs = outputs_of(&b, &owner);
         foreign_pool.extend(outs.clone());
-        my_avail.extend(outs);
+        my_avail.extend(outs.clone());
+        created.push(outs);
+        spent.push(my_spent);
         avail.push(my_avail);
         nodes.push(TNode { parent: s.parent, block: b, honest: !s.tamper, depth });
     }
@@ -682,6 +709,68 @@ pub fn cases(seed: u64, tier: &str) -> Vec<CaseSpec> {
         }
         let order: Vec<usize> = (0..parents.len()).collect();
         v.push(CaseSpec { specs, orders: vec![order], prune_after: 50 });
+    }
+    // 2d. reorganisations that fail part-way: a shared prefix, a main chain of m blocks and a fork of m+1 blocks whose
+    //     blocks each spend an output created by their parent (a dependency chain inside the candidate); the j-th fork
+    //     block is bad in one of three ways (tampered header / spends an output that exists only on the main chain /
+    //     spends an output an ancestor has already spent). The fork arrives after the main chain, so its blocks are
+    //     stored as side blocks and the whole candidate is wound only when its last block arrives.
+    for shared in [1usize, 2] {
+        for m in 2..=(if thorough { 4usize } else { 3 }) {
+            let flen = m + 1;
+            for j in 0..flen {
+                for kind in 0..3u8 {
+                    let mut parents: Vec<Option<usize>> = vec![];
+                    for i in 0..shared + m {
+                        parents.push(if i == 0 { None } else { Some(i - 1) });
+                    }
+                    for i in 0..flen {
+                        parents.push(if i == 0 { Some(shared - 1) } else { Some(shared + m + i - 1) });
+                    }
+                    let mut specs = attr(&mut r, &parents, None, false);
+                    for (i, s) in specs.iter_mut().enumerate() {
+                        s.gt = true;
+                        s.dt = if i >= shared + m { 250 } else { 400 };
+                        s.tx = if i >= shared + m { 3 } else { 1 };
+                    }
+                    let bad = shared + m + j;
+                    match kind {
+                        0 => specs[bad].tamper = true,
+                        1 => specs[bad].tx = 2,
+                        _ => specs[bad].tx = 4,
+                    }
+                    let order: Vec<usize> = (0..parents.len()).collect();
+                    v.push(CaseSpec { specs, orders: vec![order], prune_after: 50 });
+                }
+            }
+        }
+    }
+    // 2e. the ticket rule at the tip of a fork: every placement of tickets in the six blocks ending at the fork's tip
+    //     (6 - L shared blocks just below the fork point, then the L fork blocks), everything else carries a ticket
+    for l in 2..=4usize {
+        let pats: Vec<u32> = if thorough { (0..64).collect() } else { (0..64).filter(|p: &u32| p.count_ones() <= 2 || r.coin(1, 4)).collect() };
+        for pat in pats {
+            let m = 8usize; // main chain length
+            let f = m - (l - 1); // the fork replaces the last l-1 main blocks
+            let mut parents: Vec<Option<usize>> = (0..m).map(|i| if i == 0 { None } else { Some(i - 1) }).collect();
+            for i in 0..l {
+                parents.push(if i == 0 { Some(f - 1) } else { Some(m + i - 1) });
+            }
+            let mut specs = attr(&mut r, &parents, None, false);
+            for (i, s) in specs.iter_mut().enumerate() {
+                s.tx = 1;
+                s.gt = true;
+                s.dt = if i >= m { 250 } else { 400 };
+            }
+            // window, oldest first: shared blocks f-(6-l) .. f-1, then fork blocks m .. m+l-1
+            let mut win: Vec<usize> = ((f - (6 - l))..f).collect();
+            win.extend(m..m + l);
+            for (b, idx) in win.iter().enumerate() {
+                specs[*idx].gt = (pat >> b) & 1 == 1;
+            }
+            let order: Vec<usize> = (0..parents.len()).collect();
+            v.push(CaseSpec { specs, orders: vec![order], prune_after: 50 });
+        }
     }
     // 3. random larger trees: two or three competing branches growing in turns (repeated back-and-forth reorgs)
     let nrand = if thorough { 400 } else { 60 };
